@@ -226,7 +226,10 @@ def check_main(a):
     K = CLASSES[tier]
     if runs < K:
         K = 1
-    procs = max(1, NCPU // K)
+    ncpu = int(os.environ.get("VERIF_PROCS", NCPU))
+    procs = max(1, ncpu // K)
+    shift = int(os.environ.get("VERIF_HASH_SHIFT", "0"))
+    quiet = bool(os.environ.get("VERIF_NO_EVIDENCE"))
     print("verif: property=%s tier=%s VERIF_SEED=%d runs=%d classes=%d "
           "procs/class=%d repo=%s" % (prop.ID, tier, master, runs, K, procs,
                                       core.REPO), flush=True)
@@ -235,7 +238,7 @@ def check_main(a):
     try:
         for k in range(K):
             env = dict(os.environ)
-            env["PYTHONHASHSEED"] = str(hash_seed_for(master, k))
+            env["PYTHONHASHSEED"] = str(hash_seed_for(master, k + 100 * shift))
             out = os.path.join(scratch, "class%d.json" % k)
             cmd = [PY, "-B", os.path.abspath(__file__), "_worker", prop.ID,
                    "--tier", tier, "--klass", str(k), "--K", str(K),
@@ -309,7 +312,9 @@ def check_main(a):
     groups = {}
     for v in viols:
         groups.setdefault(v["raw_sig"], []).append(v)
-    os.makedirs(os.path.join(VERIF, "replays"), exist_ok=True)
+    replay_dir = os.environ.get("VERIF_REPLAY_DIR",
+                                os.path.join(VERIF, "replays"))
+    os.makedirs(replay_dir, exist_ok=True)
     reported = 0
     known_hit = {}
     lines = []
@@ -336,7 +341,7 @@ def check_main(a):
         reported += 1
         fn = "%s-%s-%d.json" % (prop.ID, "".join(
             c if c.isalnum() else "_" for c in sig)[:60], v0["index"])
-        path = os.path.join(VERIF, "replays", fn)
+        path = os.path.join(replay_dir, fn)
         with open(path, "w") as f:
             json.dump({"property": prop.ID, "hashseed": v0["hashseed"],
                        "VERIF_SEED": master, "run_index": v0["index"],
@@ -396,9 +401,11 @@ def check_main(a):
         "wall_s": round(wall, 2),
         "violations": reported,
     }
-    os.makedirs(os.path.join(VERIF, "evidence"), exist_ok=True)
-    with open(os.path.join(VERIF, "evidence", "%s.json" % prop.ID), "w") as f:
-        json.dump(ev, f, indent=1, default=str)
+    if not quiet:
+        os.makedirs(os.path.join(VERIF, "evidence"), exist_ok=True)
+        with open(os.path.join(VERIF, "evidence", "%s.json" % prop.ID),
+                  "w") as f:
+            json.dump(ev, f, indent=1, default=str)
     if os.environ.get("VERIF_KEEP_DIGESTS"):
         alldig.sort()
         with open(os.environ["VERIF_KEEP_DIGESTS"], "w") as f:
